@@ -8,6 +8,7 @@ import GraphiqModel.Proofs.InnerProductTotal
 import GraphiqModel.Proofs.InnerProductExec
 import GraphiqModel.Proofs.InnerProductFull
 import GraphiqModel.Proofs.InnerProductHilbert
+import GraphiqModel.Proofs.InvHilbert
 namespace Graphiq.C05
 open Graphiq Graphiq.PRow Graphiq.STab Graphiq.Tab
 
@@ -288,6 +289,27 @@ theorem fidelity_is_state_overlap_of_valid (a b : Tab) (r : Option Nat) (va : a.
     Matrix.trace (Hilbert.rho a.n (STab.ofTab a)) = 1 ∧ Matrix.trace (Hilbert.rho b.n (STab.ofTab b)) = 1 :=
   ⟨Hilbert.innerProduct_trace a b r (Hilbert.ofTab_good a va) (Hilbert.ofTab_good b vb) h,
     Hilbert.rho_ofTab_trace a va, Hilbert.rho_ofTab_trace b vb⟩
+
+/-- **The fidelity is |⟨a|b⟩|²** (every n): for two stabilizer states (real commuting generators; the second one
+    independent, the first one is because `inner_product` returned) there are unit vectors `ψ_a`, `ψ_b` with
+    `ρ_a = |ψ_a⟩⟨ψ_a|`, `ρ_b = |ψ_b⟩⟨ψ_b|` — the states prepared from |0…0⟩ by the reversed synthesised circuits — and the
+    squared modulus of their inner product is exactly the value reported: `0` for `none`, `2^{-e}` for `some e`. -/
+theorem fidelity_is_squared_inner_product (a b : Tab) (r : Option Nat) (ga : (STab.ofTab a).Good)
+    (gb : (STab.ofTab b).Good) (ib : (STab.ofTab b).Indep) (h : STab.innerProduct a b = .ok r) :
+    ∃ ψa ψb : Hilbert.Bits a.n → ℂ,
+      (∑ x, star (ψa x) * ψa x = 1) ∧ (∑ x, star (ψb x) * ψb x = 1) ∧
+      (∀ x y, Hilbert.rho a.n (STab.ofTab a) x y = ψa x * star (ψa y)) ∧
+      (∀ x y, Hilbert.rho a.n (STab.ofTab b) x y = ψb x * star (ψb y)) ∧
+      (∑ x, star (ψa x) * ψb x) * star (∑ x, star (ψa x) * ψb x) = Hilbert.ipVal r := by
+  obtain ⟨hn, ia⟩ := innerProduct_ok_indep a b r ga h
+  obtain ⟨ta, ca, ha, _⟩ := inverseCircuit_complete _ ga ia
+  obtain ⟨tb, cb, hb, _⟩ := inverseCircuit_complete _ gb ib
+  obtain ⟨a1, a2⟩ := Hilbert.rho_rank_one _ ta ca ga ha
+  obtain ⟨b1, b2⟩ := Hilbert.rho_rank_one _ tb cb gb hb
+  have nb : (STab.ofTab b).n = a.n := hn.symm
+  rw [nb] at b1 b2
+  refine ⟨_, _, a2, b2, a1, b1, ?_⟩
+  exact (Hilbert.trace_rank_one _ _ _ _ a1 b1).symm.trans (Hilbert.innerProduct_trace a b r ga gb h)
 
 /-- **The executable specification is exact** (every n): the brute-force test `STab.orthB` (driver command `stab.overlap`,
     which the correspondence harness compares with the *real* `fidelity` on every pair with n ≤ 3) decides `Orth`, and the
